@@ -6,9 +6,11 @@
      f_to_str F b ls ts   Float.to_str(leading_space, type_sign) on the buffer b
      from_repr hard w a   Values.from_repr(w, allow_nonnum=a); hard = the float error handler raises
      f_sval C b           the exact value of b times 2^bias (an integer); value_scaled v = value * 2^184
-   Clauses 1 (integers exact), 2 (digit count) and 3 (type choice) are proved in full.  Of clause 4 (the
-   two error bounds) the parts are proved: every scaling step with its error, the number of loop passes;
-   the accumulated statements are the Definitions C07_print_err_statement / C07_parse_err_statement. *)
+   Clauses 1 (integers exact), 2 (digit count) and 3 (type choice) are proved in full.  Clause 4: the
+   READING bound is proved (C07_parse_err: every literal whose digit string fits the mantissa, every negative
+   exponent, positive exponents up to 62); of the PRINTING bound the steps, the loop lengths and the
+   accumulated error of the dividing loop are proved, the full statement is the Definition
+   C07_print_err_statement. *)
 From Coq Require Import ZArith List Bool.
 From PCB Require Import lib.Result lib.PyInt lib.Harness lib.MBFPrims gen.Gen_mbf gen.Gen_dec model.MBF
   model.Decimal proofs.MBF_base proofs.Decimal_den proofs.Decimal_todec proofs.Decimal_print
@@ -130,8 +132,24 @@ Theorem C07_from_decimal_exact_partial : forall C n, fmt_ok C -> n <> 0 -> Z.abs
 Proof. exact from_decimal_int. Qed.
 Print Assumptions C07_from_decimal_exact_partial.
 
-(* --- the full statements of clause 4 (OPEN: not proved; checked by the exact-rational oracle of
-       harness/C07.py on every run) *)
+(* PRINTING, accumulated over the dividing loop of to_decimal (the first of its two loops): when the loop
+   stops after j <= 62 passes the scaled den (e1, m1) is not above the upper limit and is below the exact
+   value / 10^j by less than 128 units of its last guard bit = half a unit of the last mantissa bit *)
+Theorem C07_print_div_loop_err_partial : forall F b, is_fmt F -> buf_ok (d_C F) b -> f_zero b = false ->
+  let C := d_C F in
+  exists e1 m1 j,
+    mbf_to_decimal_core_loop_103 1000 C b (c_lim_bot C) (c_lim_top C) (mbf_denormalise C (c_lim_top C))
+      (mbf_denormalise C (c_lim_bot C)) (mbf_denormalise C b) 0 = Ok ((e1, m1, f_neg C b), j) /\
+    mbf_abs_gt_den C (e1, m1, f_neg C b) (mbf_denormalise C (c_lim_top C)) = false /\
+    den_norm C m1 /\ 0 <= j <= 62 /\
+    10 ^ j * m1 <= 256 * f_man C b * 2 ^ (f_exp b - e1) < 10 ^ j * m1 + 128 * 10 ^ j.
+Proof. exact to_decimal_div_loop_err. Qed.
+Print Assumptions C07_print_div_loop_err_partial.
+
+(* --- the full statement of the printing half of clause 4 (OPEN: not proved; checked by the exact-rational
+       oracle of harness/C07.py on every run).  Missing: the composition of the loop bound above with the
+       two carry roundings, the multiplying loop and the final integer rounding, incl. the corner where the
+       value is multiplied back once after the dividing loop. *)
 
 (* the printed value differs from the stored value by less than one unit of the last digit shown
    (printed value = pd_int s * 10^pd_exp10 s; everything scaled by 2^bias) *)
